@@ -200,7 +200,9 @@ func (s *SMF) finishTempoChanges() {
 	if s.tempoChangesFinished {
 		return
 	}
-	sort.Sort(s.tempoChanges)
+	// stable: of several tempo events on one tick the last one in the file is in force (the events come
+	// track by track, so they are not in the order of their ticks when more than one track has some)
+	sort.Stable(s.tempoChanges)
 	s.calculateAbsTimes()
 	s.tempoChangesFinished = true
 }
